@@ -40,8 +40,9 @@ class ParseTree:
                 del derivations[0]
             for derivation in derivations:
                 res.append(start + derivation + end)
-            if derivation:
-                start = start + derivation
+            if derivations:
+                # What the son was finally rewritten into (maybe nothing)
+                start = start + derivations[-1]
             else:
                 start.append(son.value)
         return res
@@ -70,7 +71,11 @@ class ParseTree:
                 del derivations[0]
             for derivation in derivations:
                 res.append(start + derivation + end)
-            end = derivation + end
+            if derivations:
+                # What the son was finally rewritten into (maybe nothing)
+                end = derivations[-1] + end
+            else:
+                end = [son.value] + end
         return res
 
     def to_networkx(self):
